@@ -332,6 +332,10 @@ def _summarise(case):
         tr.uid = (k + 1) if len(case["tracks"]) % 2 else "user-%d" % (k + 1)
         tr.createAnalyticalFeature("v", [float("nan") if p[2] is None else p[2] for p in t])
         tr.createAnalyticalFeature("w", [float("nan") if p[2] is None else p[2] for p in t])
+        if (len(t) + k + len(case["tracks"])) % 3 == 0:
+            uid = tr.uid
+            tr, _how = gen.derive(tr, (t, k), allow=["copy", "extract", "mod1", "concat", "gt0", "lt0"])
+            tr.uid = uid
         trs.append(tr)
     col = TrackCollection(trs)
     # the order in which the aggregates are requested is part of the configuration: a permutation per case
